@@ -47,6 +47,13 @@ CLAIMED = {
          "extrema and close_holes floods are executable models compared with executable Coq specifications built on the proved "
          "quick-find closure (plateaus / border-connected background), on generated and exhaustive small inputs, and with the fresh build",
          "Rocq proof + translator + differential correspondence"),
+ "C04": ("proof", "Coq theorems (any dimension, neighbourhood, marker set): the code's flood -- flat-delta neighbour table, stored "
+         "lower-bound margins that skip bounds checks, zero-delta entries dropped -- equals, labels and lines, the flood that checks "
+         "every neighbour position explicitly (simulation proof); markers keep their labels; every pixel is 0 or linked to a "
+         "marker of its own label by neighbourhood steps through that label (flood invariant), so unreached pixels are 0. The "
+         "queue order is the re-translated operator<. Model, checked flood and an independent heap-based evaluation of the "
+         "definition are compared with the fresh build (incl. dirty-heap worker processes) on generated and exhaustive inputs",
+         "Rocq proof (simulation + invariants) + translator + differential correspondence"),
 }
 NOT_YET = "check not built yet in this round (see DESIGN.md section 8 for the plan)"
 ALL = ["C%02d" % i for i in range(1, 21)]
